@@ -1209,3 +1209,6 @@ mod tests {
         assert_eq!(w, g.0)
     }
 }
+
+#[cfg(john_yu_sm9_core_verif)]
+pub mod verif_hooks;
